@@ -253,7 +253,8 @@ class DataclassAdapter(GenericCallAdapter):
         kwargs = {}
 
         for field in fields(value):  # type: ignore
-            if field.repr:
+            # fields with init=False are no arguments of the constructor
+            if field.repr and field.init:
                 field_value = getattr(value, field.name)
                 is_default = False
 
